@@ -4138,6 +4138,16 @@ func checkGatewayWildcardsAndUpdate(tx WriteTxn, idx uint64, svc *structs.Servic
 				continue
 			}
 
+			// If the gateway's config entry lists the service on its own, that entry is the source of
+			// truth (see updateGatewayServices): do not replace it with a copy of the wildcard.
+			explicit, err := tx.First(tableGatewayServices, indexID, wildcardSvc.Gateway, structs.NewServiceName(svc.Name, &svc.EnterpriseMeta), wildcardSvc.Port)
+			if err != nil {
+				return fmt.Errorf("gateway service lookup failed: %s", err)
+			}
+			if gs, ok := explicit.(*structs.GatewayService); ok && gs != nil && !gs.FromWildcard {
+				continue
+			}
+
 			// Copy the wildcard mapping and modify it
 			gatewaySvc := wildcardSvc.Clone()
 
